@@ -136,14 +136,15 @@ def verify (msg sig epk : Bytes) : Outcome Bool := verifyW hashOf msg sig epk 16
 /-- A valid (message, signature, public key) triple for a tree of height `h` that is never built: a genuine WOTS key at
 leaf `idx`, an arbitrary authentication path `auth` (its `h` nodes *define* the rest of the tree), the root that path
 leads to, and a WOTS signature on the message hash under that root. Used by the harness to obtain triples the
-verifier must accept at heights where generating a key (2^h leaves) is out of reach. -/
-def craft (hf h idx : Nat) (msg otsSeed pubSeed r : Bytes) (auth : List Bytes) : Outcome (Bytes × Bytes) := do
+verifier must accept at heights where generating a key (2^h leaves) is out of reach, and for the Winternitz parameters
+4 and 256, with which the library itself never signs. -/
+def craft (p : WParams) (hf h idx : Nat) (msg otsSeed pubSeed r : Bytes) (auth : List Bytes) : Outcome (Bytes × Bytes) := do
   let hash := hashOf hf
-  let wpk := wotsPKGen hash wp16 otsSeed pubSeed idx
-  let leaf := lTree hash pubSeed idx wp16.len 0 wpk
+  let wpk := wotsPKGen hash p otsSeed pubSeed idx
+  let leaf := lTree hash pubSeed idx p.len 0 wpk
   let root := validateAuthPath hash pubSeed leaf idx (auth.take h)
   let msgHash := hMsg hash msg (r ++ root ++ toBytesBE idx 32)
-  let wsig ← wotsSign hash wp16 msgHash otsSeed pubSeed idx
+  let wsig ← wotsSign hash p msgHash otsSeed pubSeed idx
   pure (toBytesBE idx 4 ++ r ++ wsig.flatten ++ (auth.take h).flatten, Desc.bytes ⟨hf, 0, h, 0⟩ ++ root ++ pubSeed)
 
 end
